@@ -2,6 +2,7 @@
 from vlib.cfg import Cfg, DefUse, Slice, ref_chain, NO_INDEX_PASS, const_strings
 from vlib.cond import switch_cond, bool_edges, variant_edge
 from vlib.facts import AnchorMissing
+from vlib import absval
 
 PKG = "varlink-cli"
 LAST = ("rfind", "rsplit_once", "rsplitn", "rsplit")
@@ -71,20 +72,27 @@ def r1(cx, vc, pr):
     cx.floor("C20.R1", "--more loops", nm, 1)
     # each print_call_ret result goes through `?`: its Err leaves the function, never the successful return
     for i, p in enumerate(prints):
-        ce, be = try_edges(vc, du, sl, p)
-        good = be is not None and not any(x in cfg.after(be) for x in okret) and not any(n.bb in cfg.after(be) for n in nexts)
+        # whatever the spelling (`?`, a tail expression, `try_for_each`): once print_call_ret has returned Err, every return that
+        # can follow returns Err and the iteration is not resumed
+        rets, reached = absval.outcome_after(cfg, du, p, 1)
+        good = rets is not None and bool(rets) and all(v is not None and v[0] == "var" and v[1] == 1 for v in rets) and not any(n.bb in reached for n in nexts)
         cx.check(good, "C20.R1", "%s:varlink_call:print_call_ret#%d:error-propagates" % (PKG, i), "%s varlink_call" % p.sp,
                  "an error reported by print_call_ret does not end varlink_call with Err (exit status would be 0 although a reply was an error)", note_ok="`?`: Err -> return Err")
     # print_call_ret: print only on the Ok path of ret
     pcfg = Cfg(pr); pdu = DefUse(pr); psl = Slice(pr, pdu)
-    br = [t for t in pr.calls("=branch") if any(k == "arg" and o == 3 for k, o in psl.origins(t.args[0])) and not any(k == "call" for k, o in psl.origins(t.args[0]))]
     pp = [t for t in pr.calls("=_print")]
-    good = len(br) == 1 and bool(pp)
+    good = bool(pp) and pr.argc >= 3 and pr.ty(3).startswith("std::result::Result<")
     if good:
-        sw = pr.blocks[br[0].target].term
-        ce, be = variant_edge(sw, 0), variant_edge(sw, 1)
-        okr = [s.bb for s in pr.stmts() if s.kind == "assign" and s.lhs.l == 0 and not s.lhs.p and s.rv == "agg" and isinstance(s.agg, dict) and s.agg.get("variant") == "Ok"]
-        good = all(pcfg.edge_dominates(ce, t.bb) for t in pp) and not any(x in pcfg.after(be) for x in okr) and all(pcfg.must_pass(ce[2], okr, {t.bb for t in pp}) for _ in [0])
+        # decided on the value of `ret` (parameter 3), whatever tests it (`?`, match, map_err + `?`):
+        #   ret = Err: nothing is printed and every return is Err;  ret = Ok: no successful return without the print
+        rets_of = lambda states: [absval.step_block(pr, st, b).get(0) for b, sts in states.items() if not pr.blocks[b].cleanup and pr.blocks[b].term.kind == "return" for st in sts]
+        on_err = absval.sens_states(pcfg, pdu, [(0, {3: ("var", 1, None)})])
+        on_ok = absval.sens_states(pcfg, pdu, [(0, {3: ("var", 0, None)})], blocked_nodes={t.bb for t in pp})
+        good = on_err is not None and on_ok is not None
+        if good:
+            er = rets_of(on_err)
+            good = (not any(t.bb in on_err for t in pp) and bool(er) and all(v is not None and v[0] == "var" and v[1] == 1 for v in er)
+                    and all(v is not None and v[0] == "var" and v[1] == 1 for v in rets_of(on_ok)))    # e.g. the JSON rendering failed
     cx.check(good, "C20.R1", "%s:print_call_ret:prints-iff-ok" % PKG, pr.sp, "print_call_ret does not print exactly on the Ok path of the reply (or returns Ok for an error reply)", note_ok="ret? ; println!(json(reply)) ; Ok(())")
     # main: exit(1) exactly on Err
     mains = [b for b in cx.mir.bodies(PKG) if b.promoted is None and b.path == "main"]
@@ -107,9 +115,8 @@ def r1(cx, vc, pr):
     vcalls = [t for t in dmb.calls("=varlink_call")]
     ok2 = len(vcalls) == 1
     if ok2:
-        ce, be = try_edges(dmb, ddu, dsl, vcalls[0])
-        okr = [s.bb for s in dmb.stmts() if s.kind == "assign" and s.lhs.l == 0 and not s.lhs.p and s.rv == "agg" and isinstance(s.agg, dict) and s.agg.get("variant") == "Ok"]
-        ok2 = be is not None and not any(x in dcfg.after(be) for x in okr)
+        rets, _ = absval.outcome_after(dcfg, ddu, vcalls[0], 1)
+        ok2 = rets is not None and bool(rets) and all(v is not None and v[0] == "var" and v[1] == 1 for v in rets)
     cx.check(ok2, "C20.R1", "%s:do_main:call-error-propagates" % PKG, dmb.sp, "do_main swallows the error of varlink_call", note_ok="varlink_call(..)?")
 
 
@@ -162,7 +169,8 @@ def r2(cx, vc):
     okm = any("RangeFrom" in ks and p1 and fs for ks, p1, fs in m)
     cx.check(okm, "C20.R2", "%s:varlink_call:method-is-suffix" % PKG, "%s varlink_call" % mn[0].sp, "the method name is not url[n+1..] behind the last slash (%s)" % [(sorted(k), p, f) for k, p, f in m], note_ok="method = url[n+1..]")
     # only the no-dot test may reject between split and connect
-    errs = [s.bb for s in vc.stmts() if s.kind == "assign" and s.lhs.l == 0 and not s.lhs.p and s.rv == "agg" and isinstance(s.agg, dict) and s.agg.get("variant") == "Err"]
+    # every place an Err is built (the function's own result or, in the view, the result slot of an inlined helper)
+    errs = [s.bb for s in vc.stmts() if s.kind == "assign" and not s.lhs.p and s.rv == "agg" and isinstance(s.agg, dict) and s.agg.get("variant") == "Err" and "Result" in s.agg.get("adt", "")]
     region = cfg.after(some, blocked_nodes={wa[0].bb})
     rej = [e for e in errs if e in region]
     dot_edges = []
@@ -174,6 +182,9 @@ def r2(cx, vc):
             if o:
                 te, fe = bool_edges(b.term, c)
                 dot_edges.append(te if c.term.callee.name == "is_none" else fe)
+        elif c.kind == "call" and c.term.callee.name == "contains" and any(y.is_const and (y.cint() == 46 or y.cstr() == ".") for y in c.term.args):
+            te, fe = bool_edges(b.term, c)
+            dot_edges.append(fe)
     extra = [e for e in rej if not any(cfg.edge_dominates(d, e) for d in dot_edges)]
     cx.check(not extra and bool(dot_edges), "C20.R2", "%s:varlink_call:no-extra-rejection" % PKG, "%s varlink_call" % S.sp,
              "after the split the address can be rejected for a reason other than `method has no dot` (%d extra error exit(s) before connecting): some supported address form (unix path, unix:@abstract, tcp:) stops working" % len(extra),
@@ -194,13 +205,15 @@ def r3(cx, pr):
     cx.check(good, "C20.R3", "%s:print_call_ret:prints-the-reply" % PKG, pr.sp, why, note_ok="println!(to_colored_json(&reply)) with reply = Ok payload of the call")
     clos = [b for b in cx.mir.bodies(PKG) if b.promoted is None and b.parent == pr.path]
     names = set(); withp = False
-    for c in clos:
+    for c in clos + [pr]:
         csl = Slice(c)
-        for t in c.calls():
-            for a in t.args:
-                for sname in const_strings(c, csl, a):
-                    if sname in ("InterfaceNotFound", "MethodNotFound", "MethodNotImplemented", "InvalidParameter"): names.add(sname)
-        if c.calls("=to_colored_json"): withp = True
+        ops = [a for t in c.calls() for a in t.args] + [o for st in c.stmts() if st.kind == "assign" and st.rv in ("agg", "use") for o in st.ops]
+        for a in ops:
+            for sname in const_strings(c, csl, a):
+                if sname in ("InterfaceNotFound", "MethodNotFound", "MethodNotImplemented", "InvalidParameter"): names.add(sname)
+        if c is not pr and c.calls("=to_colored_json"): withp = True
+    # rendered by the function itself (helpers are part of its view): a to_colored_json that is not the one printing the reply
+    if [t for t in pj if not any(k == "arg" and v == 3 for k, v in sl.origins(t.args[1]))]: withp = True
     cx.check(len(names) == 4 and withp, "C20.R3", "%s:print_call_ret:error-arms" % PKG, pr.sp,
              "the error rendering names %s (expected the four standard errors) and prints custom error parameters: %s" % (sorted(names), withp), note_ok="four standard errors + custom error with/without parameters")
     # kinds covered: agreement with the library's error table
